@@ -15,6 +15,7 @@ import (
 	"sort"
 	"strconv"
 	"strings"
+	"sync"
 	"sync/atomic"
 	"time"
 
@@ -144,6 +145,8 @@ type Server struct {
 	Log          *slog.Logger         // minimal no-alloc logger
 	hooks        *Hooks               // hooks contains hooks for extra functionality such as auth and persistent storage
 	inlineClient *Client              // inlineClient is a special client used for inline subscriptions and inline Publish
+	closeMu      sync.RWMutex         // orders new connection handlers against Close
+	closed       bool                 // Close has begun: no new connection is attached
 }
 
 // loop contains interval tickers for the system events loop.
@@ -405,8 +408,15 @@ func (s *Server) EstablishConnection(listener string, c net.Conn) error {
 // to the server, performs session housekeeping, and reads incoming packets.
 func (s *Server) attachClient(cl *Client, listener string) error {
 	verifPoint("attach.start", cl)
-	defer s.Listeners.ClientsWg.Done()
+	s.closeMu.RLock()
+	if s.closed { // Close is (or was) waiting for the handlers it knows of: this connection is refused, not served
+		s.closeMu.RUnlock()
+		cl.Stop(packets.ErrServerShuttingDown)
+		return ErrConnectionClosed
+	}
 	s.Listeners.ClientsWg.Add(1)
+	s.closeMu.RUnlock()
+	defer s.Listeners.ClientsWg.Done()
 	defer verifPoint("attach.end", cl)
 
 	go cl.WriteLoop()
@@ -1574,6 +1584,9 @@ func (s *Server) publishSysTopics() {
 
 // Close attempts to gracefully shut down the server, all listeners, clients, and stores.
 func (s *Server) Close() error {
+	s.closeMu.Lock()
+	s.closed = true
+	s.closeMu.Unlock()
 	close(s.done)
 	s.Log.Info("gracefully stopping server")
 	s.Listeners.CloseAll(s.closeListenerClients)
@@ -1641,7 +1654,7 @@ func (s *Server) sendLWT(cl *Client) {
 		s.retainMessage(cl, pk)
 	}
 
-	s.publishToSubscribers(pk)                      // [MQTT-3.1.2-8]
+	s.publishToSubscribers(pk) // [MQTT-3.1.2-8]
 	cl.Lock()
 	cl.Properties.Will.Flag = 0 // [MQTT-3.1.2-10]
 	cl.Unlock()
